@@ -106,9 +106,15 @@ def strip_pred_ctx(trace):
         out.append(ev)
     return ";".join(out)
 
+NO_MATCH_HEX = "no match found".encode().hex()
+
 def getf(obs, f):
     if f == "trace_noctx":
         return strip_pred_ctx(obs.get("trace"))
+    if f == "cberrs":
+        # the error list without the final "no match found" report: errors returned by code blocks, panics,
+        # invalid-encoding and budget errors
+        return ",".join(e for e in (obs.get("errs") or "").split(",") if e and NO_MATCH_HEX not in e)
     return norm_field(f, obs.get(f))
 
 def same_on(fields, a, b):
